@@ -255,7 +255,7 @@ def run_stage(prop, stage, tier, seed, workdir, log):
 
     running = {}
 
-    def launch(slice_idx, start, count, attempt, sub):
+    def launch(slice_idx, start, count, attempt, sub, hangs=0):
         sdir = outdir
         cmd = _harness_cmd(exe, stage, seed, start, count, sub, sdir, 3 if slice_idx == 0 and attempt == 0 else 0)
         errp = os.path.join(outdir, "stderr.%d" % sub)
@@ -263,7 +263,7 @@ def run_stage(prop, stage, tier, seed, workdir, log):
         p = subprocess.Popen(cmd, stdout=errf, stderr=subprocess.STDOUT, env=_san_env(stage, outdir, sub, 0),
                              cwd=outdir, preexec_fn=os.setsid)
         running[p.pid] = dict(proc=p, slice=slice_idx, start=start, count=count, attempt=attempt, sub=sub,
-                              t0=time.time(), errp=errp, errf=errf, cmd=cmd)
+                              t0=time.time(), errp=errp, errf=errf, cmd=cmd, hangs=hangs)
 
     # sub index: unique per process launch so files never collide
     next_sub = [0]
@@ -331,6 +331,8 @@ def run_stage(prop, stage, tier, seed, workdir, log):
             if timed_out:
                 obs.append(Observation("%s:hang:%s" % (prop, stage.name), "no progress within %ds (case %s)" % (
                     stage.per_proc_timeout, cur_case), stage, cur_case, errtxt[-2000:], sub))
+            elif rc == 3:
+                pass  # in-harness watchdog: the violation record is already in the viol file
             elif not san_found and rc is not None:
                 sn = _signame(rc) or ("exit%d" % rc)
                 if rc == 2 and "mon:" in errtxt:
@@ -344,12 +346,17 @@ def run_stage(prop, stage, tier, seed, workdir, log):
             summaries.append(dict(prop=prop, mode=stage.mode, evaluations=done, nontrivial=0, violations=0,
                                   wall_s=time.time() - info["t0"], flags={}, counters={}, max_counters=[],
                                   partial=True))
-            # restart after the offending case
-            if cur_case is not None and info["attempt"] < MAX_RESTARTS:
+            # restart after the offending case; a slice whose scenarios keep hanging is abandoned after two
+            # watchdog exits (every further scenario would cost a full watchdog period)
+            hung = timed_out or rc == 3
+            info_hangs = info.get("hangs", 0) + (1 if hung else 0)
+            if hung and info_hangs >= 2:
+                pass
+            elif cur_case is not None and info["attempt"] < MAX_RESTARTS:
                 nxt = cur_case + 1
                 end = info["start"] + info["count"]
                 if nxt < end:
-                    launch(info["slice"], nxt, end - nxt, info["attempt"] + 1, new_sub())
+                    launch(info["slice"], nxt, end - nxt, info["attempt"] + 1, new_sub(), info_hangs)
             elif cur_case is not None:
                 harness_fail.append("slice %d of %s crashed more than %d times" % (info["slice"], stage.name,
                                                                                     MAX_RESTARTS))
